@@ -201,4 +201,35 @@ theorem C16_trades_only_on_open_bars (cx : DCtx) (c : TokenCfg) (s : DState) (r 
 /-- … and the flag is what the bar's data says: `set_market_status` copies it from "timestamp in data" -/
 theorem C16_flag_follows_data (s : DState) (b : Bar) : (setStatus s b).flagOpen = b.flagOpen ∧ (setStatus s b).now = b.now := ⟨rfl, rfl⟩
 
+
+/-! ### non-vacuity: a call and a put, both due at minute 120, one in the money -/
+
+namespace Deribit
+def c16aBook : List Instr :=
+  [ { name := "ETH-1650-C", stateOpen := true, kind := .call, strike := 1650, expiry := 75, mark := 479 / 10000,
+      underlying := 1716, delta := 1 / 2, gamma := 1 / 1000, asks := [], bids := [] } ]
+def c16aState : DState :=
+  { cash := 1, positions :=
+      [ ("ETH-1650-C", { name := "ETH-1650-C", expiry := 75, strike := 1650, kind := .call, amount := 2, avgBuy := 1 / 20,
+                         buyAmt := 2, avgSell := 0, sellAmt := 0 }),
+        ("ETH-1600-P", { name := "ETH-1600-P", expiry := 120, strike := 1600, kind := .put, amount := 5, avgBuy := 1 / 50,
+                         buyAmt := 5, avgSell := 0, sellAmt := 0 }),
+        ("ETH-1800-C", { name := "ETH-1800-C", expiry := 121, strike := 1800, kind := .call, amount := 1, avgBuy := 1 / 50,
+                         buyAmt := 1, avgSell := 0, sellAmt := 0 }) ],
+    book := c16aBook, wallet := [], allowNeg := false, actions := [], cache := none, flagOpen := true, now := 120,
+    price := 1716, priceDec := true }
+end Deribit
+
+section
+open Deribit
+example : c16aState.onGrid = true := by decide +kernel
+example : KeysNodup c16aState := by unfold KeysNodup; decide
+-- the call (row in the book, float path) and the put (row gone: Decimal token price) are removed, the later call stays
+example : ((update DCtx.exact ethCfg c16aState).positions.map Prod.fst) = ["ETH-1800-C"] := by decide +kernel
+-- call: round(2 × 66 / 1716) − round(min(0.0003, 0.125 × 2 × 0.0479)) = 0.076923 − 0.0003; put: out of the money
+example : (update DCtx.exact ethCfg c16aState).cash = 1 + (76923 / 1000000 - 3 / 10000) := by decide +kernel
+example : (update DCtx.exact ethCfg c16aState).actions.length = 3 := by decide +kernel
+example : update DCtx.exact ethCfg { c16aState with now := 119 } = { c16aState with now := 119 } := by decide +kernel
+end
+
 end Demeter
